@@ -16,7 +16,7 @@ EXTENDS Integers, Sequences, FiniteSets, TLC, Json, IOUtils, SequencesExt
 
 CONSTANTS MaxLen, ClearOnShort     \* ClearOnShort: skip_bom clears the stream state before rewinding
 
-Bytes == {"EF", "BB", "BF", "1", "NL", "NUL"}
+Bytes == {"EF", "BB", "BF", "1", "NL", "NUL", "CR", "SUB"}      \* SUB = 0x1A: binary reading must not stop at it; CR must survive
 AllFiles == UNION {[1..n -> Bytes] : n \in 0..MaxLen}
 
 HasBom(b) == Len(b) >= 3 /\ b[1] = "EF" /\ b[2] = "BB" /\ b[3] = "BF"
